@@ -16,6 +16,10 @@ pub struct St {
     pub attribution: Vec<(u32, u32)>,
     /// committed-choice decisions taken on the way (choice point, head answer index)
     pub choices: Vec<(u32, u32)>,
+    /// number of successful == goals on the way
+    pub eqs: u32,
+    /// total number of bindings those == goals added
+    pub eq_bindings: u32,
 }
 
 #[derive(Clone, Debug)]
@@ -54,6 +58,8 @@ pub struct Answer {
     pub path: Vec<u32>,
     pub attribution: Vec<(u32, u32)>,
     pub choices: Vec<(u32, u32)>,
+    pub eqs: u32,
+    pub eq_bindings: u32,
 }
 
 /// One evaluation of a condu/onceo node: how many head answers it had and whether the engine's
@@ -297,6 +303,8 @@ impl<'a> R1<'a> {
     fn eq(&mut self, a: &T, b: &T, mut st: St) -> Vec<St> {
         let mut ext = vec![];
         if unify(a, b, &mut st.subst, &mut ext) && (ext.is_empty() || recheck(&mut st)) {
+            st.eqs += 1;
+            st.eq_bindings += ext.len() as u32;
             vec![st]
         } else {
             vec![]
@@ -644,6 +652,8 @@ pub fn reify_answer(q: &T, st: &St) -> Answer {
         path: st.path.clone(),
         attribution: st.attribution.clone(),
         choices: st.choices.clone(),
+        eqs: st.eqs,
+        eq_bindings: st.eq_bindings,
     }
 }
 
